@@ -224,6 +224,20 @@ fn one(rep: &mut Report, bed: &TestBed, factory: &Arc<Factory>, b: &Value, idx: 
                 return
             }
         };
+        // From here on `run` is what the engine looked at: the collector's working copy, which after a
+        // transport failure is what an earlier run transferred (PubPoint.tla, variable `copy`).
+        let transport_failed = run.mc == "unreachable";
+        let run = match r.get("eff") {
+            Some(e) if e.is_object() => RunSpec {
+                pub_id: e["pub"].as_u64().unwrap(),
+                mc: { let m = e["mc"].as_str().unwrap(); if m == "none" { "unreachable".to_string() } else { m.to_string() } },
+                avail: { let a: Vec<String> = e["avail"].as_array().map(|a| a.iter().map(|x| x.as_str().unwrap().to_string()).collect()).unwrap_or_default();
+                         if a.is_empty() { run.avail.clone() } else { a } },
+                order: run.order.clone(), reject: run.reject,
+            },
+            _ => run,
+        };
+        if transport_failed && run.mc != "unreachable" { rep.add_note("C04", "runs_on_an_older_working_copy", 1); }
         let p_pub = version_payload(run.pub_id, nfiles, v6, pv);
         let p_before = version_payload(before, nfiles, v6, pv);
         let after: u64 = if offline.is_empty() { 0 }
